@@ -32,3 +32,23 @@ add("C11", "law checking against explicit scipy-Rotation algebra + icontract cla
     "Trusted: scipy Rotation composition. from_euler(order='xyz') is compared with the convention pinned by the "
     "repository's own test_euler (P R^-1 P). Tolerances 2e-6 rad / float32 positions.",
     "DESIGN.md section 4 C11")
+
+add("C12", "history + executable row model (join on unique uid after every step) + icontract class invariant K4",
+    "Random tables (0-40 rows; int/float/str/bool features with nulls and NaN; unique uid) are pushed through random "
+    "sequences of 1-8 table operations (subset in six index forms, filter by expression/mask, sort, head, tail, sample, "
+    "concat, concat_with, append, with_features, drop_features, group_by, cutby, copy) on acryo.Molecules and on a "
+    "pure-Python row model; after every step rows are joined on uid and position, orientation and every feature value "
+    "are compared, partitions are checked, and inconsistent inputs must be rejected or stay consistent.",
+    "sample's choice and the order of equal sort keys are not predicted (subset / key-ordered permutation accepted). "
+    "cutby is driven only with non-null cut columns; sort keys are non-null columns.",
+    "DESIGN.md section 4 C12")
+
+add("C13", "round-trip oracle on generated tables, byte-level suffix dispatch check, K4 invariant",
+    "Random tables (1-200 rows, positions up to 1e5, orientations incl. angles within 1e-6 of 0 and pi, typed "
+    "features with nulls) are written and re-read through to_file/from_file (magic bytes decide which format was "
+    "written), to_csv/from_csv at precisions {0,2,4,8,None}, to_parquet/from_parquet and to_dataframe/from_dataframe; "
+    "row order, column layout, bit-equal positions (binary routes), float32-rotvec orientation precision, decimal "
+    "precision (CSV) and feature values/dtypes are compared.",
+    "CSV strings are generated from a class that survives type inference (number-like strings, empty strings and "
+    "nulls are a format limitation, exercised only through Parquet).",
+    "DESIGN.md section 4 C13")
